@@ -175,7 +175,13 @@ pub fn stress(dir: &str, output: &str, seed: u64, thorough: bool) -> Value {
 	let mut lookups = 0u64;
 	// the same containers once more through the HTTP data reader (range requests against a local server)
 	let httpd = crate::httpd::RangeServer::start(Path::new(dir));
-	for (src, ext) in [("versatiles", "versatiles"), ("pmtiles", "pmtiles"), ("tar", "tar"), ("pmtiles_leaves", "pmtiles"), ("versatiles_http", "versatiles"), ("pmtiles_http", "pmtiles")] {
+	// 48 tiles of 1 MiB in ONE block: a chunk read of the versatiles reader then takes milliseconds, so that many concurrent
+	// streams really are inside it at the same time (what is rare with small tiles is certain with big ones)
+	let tiles_big: Vec<(TileCoord3, Blob)> = (0..48u32).map(|i| (TileCoord3::new(i % 16, i / 16, 4).unwrap(), Blob::from(payload(9000 + i, 1 << 20, false)))).collect();
+	let coords_big: Vec<TileCoord3> = tiles_big.iter().map(|(c, _)| *c).collect();
+	let (tiles_small, coords_small) = (tiles, coords);
+	for (src, ext) in [("versatiles", "versatiles"), ("pmtiles", "pmtiles"), ("tar", "tar"), ("pmtiles_leaves", "pmtiles"), ("versatiles_http", "versatiles"), ("pmtiles_http", "pmtiles"), ("versatiles_big", "versatiles")] {
+		let (tiles, coords) = if src == "versatiles_big" { (tiles_big.clone(), coords_big.clone()) } else { (tiles_small.clone(), coords_small.clone()) };
 		let path = Path::new(dir).join(format!("c13.{ext}"));
 		let _ = std::fs::remove_file(&path);
 		if src == "pmtiles_leaves" {
@@ -258,6 +264,69 @@ pub fn stress(dir: &str, output: &str, seed: u64, thorough: bool) -> Value {
 			out.emit(&e);
 			lookups += 1;
 		}
+		// many box streams AT THE SAME TIME (a reader may treat a crowd differently from a few): 12 tasks start together and
+		// do nothing but stream boxes; every delivered / missing / duplicated tile is a concurrent result as above.  Equal
+		// results (same coordinate, same bytes) of a task are logged ONCE with their number of occurrences `n`.
+		if !src.ends_with("_http") {
+			let barrier = Arc::new(tokio::sync::Barrier::new(12));
+			let evs: Vec<Value> = rt.block_on(async {
+				let mut hs = vec![];
+				for t in 0..12usize {
+					let reader = reader.clone();
+					let coords = coords.clone();
+					let barrier = barrier.clone();
+					let mut r = Rng::new(seed ^ 0x57e4 ^ t as u64);
+					hs.push(tokio::spawn(async move {
+						let mut agg: std::collections::HashMap<(u8, u32, u32, i64, &'static str), u64> = Default::default();
+						// (the versatiles reader has a stream implementation of its own that works block-wise: large boxes are cheap
+						// there; the other readers look every coordinate of the box up: small boxes, fewer rounds)
+						let (rounds, half) = match src {
+							"versatiles" => (if thorough { 1500 } else { 500 }, 300u32),
+							"versatiles_big" => (if thorough { 36 } else { 12 }, 300u32),
+							_ => (if thorough { 90 } else { 30 }, 6u32),
+						};
+						for round in 0..rounds {
+							// (the crowd is re-aligned before every round where a round is long, otherwise every 50 rounds)
+							if src == "versatiles_big" || round % 50 == 0 {
+								barrier.wait().await;
+							}
+							let c = *r.pick(&coords);
+							let max = ((1u64 << c.z) - 1) as u32;
+							// (a box of 600 x 600 tiles around the coordinate: several blocks, i.e. several chunk reads per stream)
+							let bbox = TileBBox::new(c.z, c.x.saturating_sub(half), c.y.saturating_sub(half), c.x.saturating_add(half).min(max), c.y.saturating_add(half).min(max)).unwrap();
+							let bb = bbox.clone();
+							let items: Vec<(TileCoord3, Blob)> = match tokio::time::timeout(std::time::Duration::from_secs(120), async { reader.get_bbox_tile_stream(bb).await.collect().await }).await {
+								Ok(v) => v,
+								Err(_) => {
+									*agg.entry((c.z, c.x, c.y, -1, "stream_hang")).or_default() += 1;
+									vec![]
+								}
+							};
+							let mut seen: std::collections::HashSet<TileCoord3> = Default::default();
+							for (cc, b) in items {
+								let h = if seen.insert(cc) { h31(b.as_slice()) as i64 } else { -2 };
+								*agg.entry((cc.z, cc.x, cc.y, h, "stream_crowd")).or_default() += 1;
+							}
+							for cc in coords.iter().filter(|cc| bbox.contains3(cc) && !seen.contains(cc)) {
+								*agg.entry((cc.z, cc.x, cc.y, 0, "stream_missing")).or_default() += 1;
+							}
+						}
+						let mut keys: Vec<_> = agg.into_iter().collect();
+						keys.sort();
+						keys.into_iter().map(|((z, x, y, h, via), n)| json!({"ev":"Conc","src":src,"t":200 + t,"z":z,"x":x,"y":y,"h":h,"via":via,"n":n})).collect::<Vec<Value>>()
+					}));
+				}
+				let mut all = vec![];
+				for h in hs {
+					all.extend(h.await.unwrap());
+				}
+				all
+			});
+			for e in evs {
+				out.emit(&e);
+				lookups += 1;
+			}
+		}
 		// the same from plain OS threads, each driving its lookups with its own minimal executor (no runtime of its own)
 		if !src.ends_with("_http") {
 			// (their own sequential reference, obtained the same way -- a plain thread and a minimal executor, on a fresh reader --
@@ -293,7 +362,7 @@ pub fn stress(dir: &str, output: &str, seed: u64, thorough: bool) -> Value {
 				let src = src.to_string();
 				handles.push(std::thread::spawn(move || {
 					let mut evs = vec![];
-					for _ in 0..(if src == "pmtiles_leaves" { 2000 } else { 200 }) {
+					for _ in 0..(if src == "pmtiles_leaves" { 2000 } else if src == "versatiles_big" { 40 } else { 200 }) {
 						let c = *r.pick(&coords);
 						let h = match catch(|| futures::executor::block_on(reader.get_tile_data(&c))) {
 							Ok(Ok(Some(b))) => h31(b.as_slice()) as i64,
